@@ -240,3 +240,10 @@ Proof. reflexivity. Qed.
 
 Lemma arg_bytes_spec o : Z.of_nat (length (to_bytes1 o)) = 1 + arg_bytes o.
 Proof. destruct o; reflexivity. Qed.
+
+(* programs compose: the concatenation of two serialisations parses to the concatenation of the programs *)
+Lemma decode_concat a b : Forall well_formed_op a -> Forall well_formed_op b ->
+  from_bytes (to_bytes a ++ to_bytes b) = Ok (a ++ b).
+Proof.
+  intros Ha Hb. rewrite <- to_bytes_app. apply decode_encode. apply Forall_app. split; assumption.
+Qed.
